@@ -15,7 +15,7 @@ func init() {
 	register("C03", "Decides structural necessary conditions of 'failure of a critical task drives a live environment to ERROR': "+
 		"(R03a) Mesos terminal statuses FAILED/LOST/KILLED of an owned task set its state to ERROR; (R03b) executor and agent loss are wired from the scheduler to handlers that set every affected task to ERROR/INACTIVE (siblings agree); "+
 		"(R03c) leaf roles forward state upward iff critical and status always, and the aggregate skips exactly the non-critical leaves; (R03d) the environment's workflow watcher turns ERROR into GO_ERROR and forces ERROR when refused, and both creation paths subscribe it; "+
-		"(R03e) a task's internal-error announcement sets its role to ERROR whatever the environment state and stops a running run; (R03f) the end of the run is recorded on the GO_ERROR path. "+
+		"(R03e) a task's internal-error announcement sets its role to ERROR whatever the environment state and stops a running run; (R03f) the end of the run is recorded on the GO_ERROR path; (R03g) the scheduler forwards every Mesos status update to the task manager (no update is dropped before the dispatcher sees it). "+
 		"Does not decide 'within bounded time', lossless notification or races with transitions.", runC03)
 }
 
@@ -26,6 +26,7 @@ func runC03(c *an.Ctx) {
 	r03d(c)
 	r03e(c)
 	r03f(c)
+	r03g(c)
 }
 
 // constsLeadingTo: TaskState/other enum constants k such that an `x == k` test's true edge leads into (dominates) target's block.
@@ -518,4 +519,48 @@ func r03f(c *an.Ctx) {
 		}
 	}
 	c.Ob("core/environment.newEnvironment[before_event]|GO_ERROR-records-end-of-run", f.Pos(), ok, "before_GO_ERROR must record run_end_time_ms (shared with C10)")
+}
+
+// r03g: every status update the scheduler receives is handed to the task manager's dispatcher.
+func r03g(c *an.Ctx) {
+	c.Rule("R03g", "the scheduler's UPDATE handler forwards every Mesos task status to the task manager: no return of the handler bypasses the send of NewTaskStatusMessage(status)", 1)
+	fn := c.MustFn("core/task", "schedulerState.statusUpdate")
+	if fn == nil {
+		return
+	}
+	n := 0
+	for _, f := range an.WithAnon(fn) {
+		if f == fn {
+			continue
+		}
+		var sends []ssa.Instruction
+		an.Instrs(f, func(in ssa.Instruction) {
+			s, ok := in.(*ssa.Send)
+			if !ok || !isFieldNamed(s.Chan, "MessageChannel") {
+				return
+			}
+			for _, l := range an.BackSlice(s.X, an.SliceOpts{LeafCall: func(n string, _ *ssa.Call) bool { return strings.HasSuffix(n, "core/task.NewTaskStatusMessage") }}) {
+				if l.Kind == "call" {
+					sends = append(sends, s)
+					return
+				}
+			}
+		})
+		if len(sends) == 0 {
+			continue
+		}
+		n++
+		c.Subject()
+		c.Mark(f)
+		bad := an.FirstExitAvoiding(f.Blocks[0].Instrs[0], sends)
+		pos := f.Pos()
+		if bad != nil {
+			pos = bad.Pos()
+		}
+		c.Ob("(*core/task.schedulerState).statusUpdate[handler]|forwards-every-update", pos, bad == nil,
+			"the handler can return without queueing the status for the task manager: a terminal status (e.g. TASK_LOST learnt through reconciliation after a reconnect) of an owned critical task is then never turned into ERROR and the environment keeps reporting a live state")
+	}
+	if n == 0 {
+		c.Lost("send of NewTaskStatusMessage on taskman.MessageChannel in the closure returned by schedulerState.statusUpdate")
+	}
 }
